@@ -25,6 +25,7 @@ import (
 type tpack struct {
 	*pack.TextPack
 	onWrite func()
+	rec     *sendRec
 }
 
 func (p *tpack) Write(o *gio.DataOutputX) {
@@ -51,9 +52,11 @@ type sendRec struct {
 	Err    string `json:"err"`
 	Class  string `json:"class"`
 
-	frame   []byte
-	tp      *pack.TextPack
-	madePtr *int64
+	frame     []byte
+	tp        *pack.TextPack
+	madePtr   *int64
+	taken     int64 // stamp when the client began to serialise the pack (before any stall)
+	failStamp int64 // queue mode: stamp taken inside RequestQueue.Put when it refused this pack
 }
 
 const frameHdr = 22
@@ -145,21 +148,29 @@ type logEvent struct {
 	Stamp   int64  `json:"stamp"`
 	Kind    string `json:"kind"` // "fail" | "connected"
 	Process bool   `json:"process"`
+	Apply   bool   `json:"apply_config,omitempty"` // logged from inside ApplyConfig
 }
 
 func inProcessGoroutine() bool {
+	p, _ := whoLogs()
+	return p
+}
+
+// whoLogs: is the caller inside process() / inside ApplyConfig?
+func whoLogs() (process, apply bool) {
 	buf := make([]byte, 8192)
 	n := runtime.Stack(buf, false)
-	return strings.Contains(string(buf[:n]), "(*OneWayTcpClient).process")
+	s := string(buf[:n])
+	return strings.Contains(s, "(*OneWayTcpClient).process"), strings.Contains(s, "(*OneWayTcpClient).ApplyConfig")
 }
 
 func (l *hookLogger) Errorf(format string, args ...interface{}) {
 	if !strings.HasPrefix(format, "connecting to") {
 		return
 	}
-	fp := inProcessGoroutine()
+	fp, fa := whoLogs()
 	l.mu.Lock()
-	l.events = append(l.events, logEvent{l.clk.tick(), "fail", fp})
+	l.events = append(l.events, logEvent{l.clk.tick(), "fail", fp, fa})
 	l.mu.Unlock()
 	atomic.AddInt64(&l.fails, 1)
 	if l.onFail != nil {
@@ -171,9 +182,9 @@ func (l *hookLogger) Infof(format string, args ...interface{}) {
 	if !strings.HasPrefix(format, "Connected") {
 		return
 	}
-	fp := inProcessGoroutine()
+	fp, fa := whoLogs()
 	l.mu.Lock()
-	l.events = append(l.events, logEvent{l.clk.tick(), "connected", fp})
+	l.events = append(l.events, logEvent{l.clk.tick(), "connected", fp, fa})
 	l.mu.Unlock()
 	atomic.AddInt64(&l.connected, 1)
 	if l.onConn != nil {
